@@ -182,6 +182,8 @@ class Agg:
             self.sample_sw = r
 
 
+# VERIF_OUT redirects evidence and replay files (used by the mutation sweep, which must not touch the committed evidence)
+OUTROOT = os.environ.get("VERIF_OUT", VERIF)
 OWNER = ""	# the property whose check is running: only its violations end a batch early
 
 
@@ -299,7 +301,7 @@ def handle_violations(agg, exes, outdir, prop, tier):
     seen = {}
     nviol = nknown = unstable = 0
     kf = known_findings()
-    os.makedirs(os.path.join(VERIF, "replays"), exist_ok=True)
+    os.makedirs(os.path.join(OUTROOT, "replays"), exist_ok=True)
     for flavour, r in agg.viol:
         rel = [v for v in r["viol"] if relevant(prop, v[0], r["variant"], r["faults"])]
         vid, desc = rel[0]
@@ -336,7 +338,7 @@ def handle_violations(agg, exes, outdir, prop, tier):
             mini, tries = minimise(exe, cand, prop, vid, outdir)
         if mini is None:
             mini = cand
-        final = os.path.join(VERIF, "replays", "%s-%s-%d%s.plan" % (prop, vid.replace(".", "_"), r["seed"], suffix))
+        final = os.path.join(OUTROOT, "replays", "%s-%s-%d%s.plan" % (prop, vid.replace(".", "_"), r["seed"], suffix))
         # re-record decisions + expectation, then gate: two fresh executions must agree
         exec_plan(exe, mini, outdir, record=final)
         with open(final, "a") as f:
@@ -473,8 +475,8 @@ def check(prop, tier_name):
         nviol, nknown = handle_violations(agg, exes, outdir, prop, tier) if agg.viol else (0, 0)
         wall = time.time() - t0
         ev = evidence(prop, tier_name, base, cfg, agg, wall, nviol, exes)
-        os.makedirs(os.path.join(VERIF, "evidence"), exist_ok=True)
-        with open(os.path.join(VERIF, "evidence", prop + ".json"), "w") as f:
+        os.makedirs(os.path.join(OUTROOT, "evidence"), exist_ok=True)
+        with open(os.path.join(OUTROOT, "evidence", prop + ".json"), "w") as f:
             json.dump(ev, f, indent=1)
         for k, v in sorted(agg.notes.items()):
             print("NOTE property=%s saw %d run(s) violating another property's oracle %s (decided by that property's own check)" % (prop, v, k))
